@@ -88,7 +88,9 @@ pub fn replay(v: &serde_json::Value) -> i32 {
 		c01::run_case(&rep, &mut local, &rt, &mut http, &ws, "replay", &msg, batch, "");
 		let want = v["signature"].as_str().unwrap_or("");
 		// cases found on the SRV-TCP leg (Server::start over loopback sockets, with or without RPC middleware)
-		if want.starts_with("tcp") {
+		if want.starts_with("tcp:h2:") {
+			c01::h2_case(&rep, &mut local, &rt, "replay", &msg, batch);
+		} else if want.starts_with("tcp") {
 			c01::tcp_case(&rep, &mut local, &rt, "replay", &msg, batch, want.starts_with("tcp+middleware"));
 		}
 		println!("message: {:?}\nbatch config: {batch:?}", String::from_utf8_lossy(&msg));
